@@ -34,7 +34,7 @@ class Scratch:
     advisory lock serialises accidental concurrent users of one slot."""
 
     def __init__(self, slot, ns="run"):
-        self.base = os.path.join(SCRATCH_BASE, f"cbisim-{os.getuid():05d}", ns[:3].ljust(3, "_"),
+        self.base = os.path.join(SCRATCH_BASE, f"cbisim-{os.getuid():05d}", ns[:8],
                                  f"r{int(slot):06d}")
         self._lock = None
 
